@@ -263,9 +263,13 @@ outer:
 			break
 		}
 
+		s.Lock()
+		ttl := s.ttl
+		s.Unlock()
+
 		if len(m.Body) < 4 ||
 			m.Body[0] != 0 || m.Body[1] != 0 || m.Body[2] != 0 ||
-			int(m.Body[3]) >= s.ttl {
+			int(m.Body[3]) >= ttl {
 			m.Free()
 			continue
 		}
